@@ -3,6 +3,8 @@
 use rbverif::{hex, unhex};
 use rustbus::params::validation::validate_signature;
 use rustbus::signature::{SignatureIter, Type};
+use rustbus::wire::SignatureWrapper;
+use std::convert::TryFrom;
 use std::io::{BufRead, Write};
 
 fn st<T, E>(r: &std::thread::Result<Result<T, E>>) -> &'static str {
@@ -41,10 +43,40 @@ fn eval(bytes: &[u8]) -> (bool, String) {
         }
         _ => "-".to_string(),
     };
+    // the public constructors of the signature wrapper: all three must give the validator's verdict
+    let w1 = std::panic::catch_unwind(|| SignatureWrapper::new(s).map(|_| ()));
+    let w2 = std::panic::catch_unwind(|| SignatureWrapper::<&str>::try_from(s).map(|_| ()));
+    let w3 = std::panic::catch_unwind(|| SignatureWrapper::<String>::try_from(s.to_string()).map(|_| ()));
+    let w = if st(&w1) == st(&w2) && st(&w2) == st(&w3) { st(&w1) } else { "mixed" };
+    // SignatureIter::new_at_idx at every top-level boundary (and past the end) yields the remaining types
+    let x = match &v {
+        Ok(Ok(())) => match std::panic::catch_unwind(|| {
+            let parts: Vec<&str> = SignatureIter::new(s).collect();
+            let mut off = 0usize;
+            for k in 0..=parts.len() {
+                let rest: Vec<&str> = SignatureIter::new_at_idx(s, off).collect();
+                if rest != parts[k..] {
+                    return Some(off);
+                }
+                if k < parts.len() {
+                    off += parts[k].len();
+                }
+            }
+            if SignatureIter::new_at_idx(s, s.len() + 3).next().is_some() {
+                return Some(s.len() + 3);
+            }
+            None
+        }) {
+            Ok(None) => "ok".to_string(),
+            Ok(Some(off)) => format!("bad@{}", off),
+            Err(_) => "panic".to_string(),
+        },
+        _ => "-".to_string(),
+    };
     let acc = matches!(p, Ok(Ok(_))) || matches!(v, Ok(Ok(_)));
     (
         acc,
-        format!("{} P:{} V:{} R:{} S:{}", hex(bytes), st(&p), st(&v), r, sp),
+        format!("{} P:{} V:{} R:{} S:{} W:{} X:{}", hex(bytes), st(&p), st(&v), r, sp, w, x),
     )
 }
 
